@@ -263,6 +263,10 @@ func c02WriteUniverse(dir string, tc *c02Case) (string, []byte) {
 		// "<T>" in an absolute ref stands for the directory of the universe
 		b = []byte(strings.ReplaceAll(string(b), `\u003cT\u003e`, filepath.ToSlash(dir)))
 		p := filepath.Join(dir, filepath.FromSlash(f))
+		if rest, ok := strings.CutPrefix(f, c02Mirror); ok {
+			// a document of the second served host lives in its own tree, under the path of its URL
+			p = filepath.Join(dir, "_m", filepath.FromSlash(strings.ReplaceAll(rest, "<T>", filepath.ToSlash(dir))))
+		}
 		os.MkdirAll(filepath.Dir(p), 0o755)
 		if err := os.WriteFile(p, b, 0o644); err != nil {
 			panic(err)
@@ -273,6 +277,9 @@ func c02WriteUniverse(dir string, tc *c02Case) (string, []byte) {
 	}
 	return filepath.Join(dir, "r", "openapi.json"), rootBytes
 }
+
+// c02Mirror is the second host the harness serves (spec/Layout.tla RemoteAbs)
+const c02Mirror = "https://m.example"
 
 var kindOfRefType = map[string]string{
 	"SchemaRef": "schemas", "ParameterRef": "parameters", "HeaderRef": "headers", "RequestBodyRef": "requestBodies",
@@ -486,6 +493,11 @@ func c02Load(tc *c02Case, allowExternal bool) *c02Loaded {
 	if !strings.HasSuffix(tc.Entry, "_default") {
 		loader.ReadFromURIFunc = func(l *openapi3.Loader, u *url.URL) ([]byte, error) {
 			p := u.String()
+			if u.Scheme == "https" && u.Host == "m.example" {
+				// the second served host: same paths as the universe's own files, other documents
+				res.reads = append(res.reads, strings.ReplaceAll(p, filepath.ToSlash(dir), "<T>"))
+				return os.ReadFile(filepath.Join(dir, "_m", filepath.FromSlash(u.Path)))
+			}
 			if tc.Entry == "uri_remote" && u.Scheme == "https" && u.Host == "root.example" {
 				res.reads = append(res.reads, p)
 				return os.ReadFile(filepath.Join(dir, filepath.FromSlash(u.Path)))
